@@ -137,7 +137,7 @@ type Detail struct {
 	Bound   uint64            `json:"bound"`
 	Via     string            `json:"via,omitempty"` // how "blocked" was established: open | lockprobe
 	Fds     []string          `json:"fds,omitempty"` // what was left open after the failed Open
-	DumpN   int               `json:"dumpn"` // entries DumpLogs delivered
+	DumpN   int               `json:"dumpn"`         // entries DumpLogs delivered
 	Skipped string            `json:"skipped,omitempty"`
 	Ms      float64           `json:"ms"`
 }
@@ -880,8 +880,8 @@ type prober struct {
 	marker   *os.File // progress record for the parent
 	curIdx   int
 	curID    int
-	calFile  string   // calibration marker shared by the children of one run
-	confirm  int      // lock held => second Open blocked (observed for real)
+	calFile  string // calibration marker shared by the children of one run
+	confirm  int    // lock held => second Open blocked (observed for real)
 	refute   int
 }
 
@@ -1025,9 +1025,12 @@ func openFds() map[string]bool {
 		return out
 	}
 	names, _ := f.Readdirnames(-1)
+	self := strconv.Itoa(int(f.Fd())) // the listing's own descriptor is free again in a moment
 	f.Close()
 	for _, n := range names {
-		out[n] = true
+		if n != self {
+			out[n] = true
+		}
 	}
 	return out
 }
@@ -1377,10 +1380,10 @@ func readCases(path string) ([]Case, error) {
 
 type runFlags struct {
 	pristine, cases, out, detail, work, calFile, progress string
-	seed                                        int64
-	par, skip                                   int
-	watchdog, rewatch                           time.Duration
-	vlimitKB, memLimitMB                        int64
+	seed                                                  int64
+	par, skip                                             int
+	watchdog, rewatch                                     time.Duration
+	vlimitKB, memLimitMB                                  int64
 }
 
 func childMain(fl runFlags) {
@@ -1443,7 +1446,6 @@ func childMain(fl runFlags) {
 	}
 	os.Exit(0)
 }
-
 
 // worker runs children over one slice of the cases until all of them have a result line.
 func worker(k int, fl runFlags, cases []Case, exe string) (restarts int, err error) {
